@@ -7,6 +7,7 @@
 #include "sim/monitors.h"
 #include "relay.h"
 #include <algorithm>
+#include <memory>
 
 namespace tun {
 using namespace hz;
@@ -32,6 +33,7 @@ struct Run {
 	bool idle_gap = false;
 	std::string client_log, server_log;
 	bool exited = false;
+	bool busy = false, stream_stop = false; int n_stream = 0;
 	std::vector<std::string> classes;
 };
 
@@ -83,6 +85,9 @@ inline void run_tunnel(Tape &t, Mode mode, Run &R)
 	R.cfg = gen_config(t, mode);
 	scn::Config &c = R.cfg;
 	// a relay in the path (C01: DNS-id rewriting and case-randomising relays; C02: id rewriting only, the path stays intact)
+	// drawn early: a tunnel case uses up most of its tape for the offers
+	bool busy_draw = false; uint32_t busy_period_ms = 200;
+	if (mode == RECOVER) { busy_draw = t.chance(1, 3); busy_period_ms = (uint32_t)t.range(120, 500); }
 	if (mode == REDELIVER) { c.raw_mode = false; c.client_v6 = false; }
 	bool use_relay = !c.raw_mode && !c.client_v6 && (mode == REDELIVER || t.chance(1, mode == FAULTY ? 3 : 6));
 	if (use_relay) c.nameserver = sim::Addr::v4(192, 0, 2, 53, 53);
@@ -234,6 +239,28 @@ inline void run_tunnel(Tape &t, Mode mode, Run &R)
 			R.fn.filter = [back, server, inner](const sim::Datagram &dg) { if (dg.src == back || dg.dst == back) return false; return inner ? inner(dg) : true; };
 		}
 	}
+	// RECOVER, one case in three: an application keeps sending through the client's tun device at a steady rate (2..8 packets a
+	// second) during the faults, the settling time and the clean suffix -- what a TCP connection or a media stream does
+	R.busy = busy_draw && !c.raw_mode;
+	std::shared_ptr<std::function<void()>> streamer;
+	if (R.busy) {
+		uint64_t period = (uint64_t)busy_period_ms * 1000;
+		auto cnt = std::make_shared<int>(0);
+		sim::Instance *ci = s.cli[0];
+		Bytes csrc = cip[0], cdst = sip;
+		streamer = std::make_shared<std::function<void()>>();
+		std::weak_ptr<std::function<void()>> weak = streamer;
+		Run *Rp = &R;
+		*streamer = [=]() {
+			if (Rp->stream_stop) return;
+			Bytes body(20 + (*cnt % 50)); for (size_t k = 0; k < body.size(); k++) body[k] = (uint8_t)(*cnt * 7 + k * 3);
+			if (ci->tun_in.size() < 64) sim::W.offer_tun(ci, scn::tun_packet(cdst, csrc, body, (uint16_t)(30000 + (*cnt)++)));
+			Rp->n_stream++;
+			if (auto sp = weak.lock()) sim::W.after(period, *sp);
+		};
+		sim::W.after(period, *streamer);
+		R.classes.push_back("busy-upstream-stream");
+	}
 	// run the offers
 	size_t next = 0;
 	uint64_t end_faults = t0 + fault_len;
@@ -269,6 +296,7 @@ inline void run_tunnel(Tape &t, Mode mode, Run &R)
 		}
 		sim::W.run_for(10000000);
 	}
+	R.stream_stop = true;
 	// ---- bookkeeping for the oracles
 	for (auto &e : R.tm.ev) {
 		if (e.write) continue;
